@@ -51,6 +51,12 @@ def rev_parity(crate):
             # kernel shape is not extracted from closures
             res.append((b, b.key, "undecided", "comparison expressed through iterator adaptors (%s): kernel shape not decided" % ", ".join(sorted(set(adaptors)))))
             continue
+        helpers = sorted({crate.new_helper(fn).name for bb, t, fn in b.iter_calls() if crate.new_helper(fn) is not None})
+        if not calls and helpers:
+            # the comparison was handed to helper(s) introduced after the review (`eq_words(&self.data, &other.data)`):
+            # operand order / reversal inside them is not extracted
+            res.append((b, b.key, "undecided", "comparison delegated to the helper(s) %s introduced after the review: not decided" % ", ".join(helpers)))
+            continue
         if not calls:
             res.append((b, b.key, "violation", "comparison without a loop delegates to no comparison"))
             continue
@@ -212,6 +218,18 @@ def kernel_shape(crate):
         else:
             if not info["eq_ok"]:
                 probs.append("does not return false on the first differing word / true at the end")
+        if probs:
+            # the kernel rule describes ONE algorithm: a single word loop over 0..max(..) comparing zero-extended words. A body
+            # that also scans words elsewhere (a surplus-word pre-check through any()/all()/find(), a second loop, a helper
+            # introduced after the review) implements another algorithm, which this rule cannot judge
+            extra = sorted({fn["name"] for bb, t, fn in b.iter_calls() if fn and fn["name"] in
+                            ("all", "any", "find", "position", "rposition", "fold", "try_fold", "iter", "split_at", "chain", "zip", "skip_while", "take_while")})
+            helpers = sorted({crate.new_helper(fn).name for bb, t, fn in b.iter_calls() if crate.new_helper(fn) is not None})
+            if extra or helpers or len(b.loops()) > 1:
+                res.append((b, b.key, "undecided", "not the single-loop kernel this rule describes (%s): %s"
+                            % (", ".join(extra + helpers) or "%d loops" % len(b.loops()), "; ".join(probs)[:200])))
+                kernels[pair].pop(kind, None)
+                continue
         res.append((b, b.key, "violation" if probs else "pass",
                     "; ".join(probs) if probs else "loop %s%s, words %s vs %s"
                     % (show(info["range"]), " reversed" if info["rev"] else "", show(info["cmp"][0])[:50], show(info["cmp"][1])[:50])))
